@@ -46,8 +46,13 @@ def read_db(path):
 
 def core_rows(rows):
     """canonical text of the (path, md5, sha1, size, ext) columns, sorted as the driver sorts"""
-    strs = ["%s:%d:%d:%s:%s" % (hx(r["path"].encode()), int(r["md5"], 16), int(r["sha1"], 16), r["size"], hx(r["ext"].encode()))
-            for r in rows]
+    strs = []
+    for r in rows:
+        try:
+            strs.append("%s:%d:%d:%s:%s" % (hx(r["path"].encode()), int(r["md5"], 16), int(r["sha1"], 16), r["size"], hx(r["ext"].encode())))
+        except (TypeError, ValueError, KeyError, AttributeError):
+            # a row the database reader could not split into the recorded columns (never agrees with the model)
+            strs.append("malformed-row:%s" % hx(repr(sorted((str(k), str(v)) for k, v in r.items())).encode()))
     return ",".join(sorted(strs)) if strs else "-"
 
 
@@ -70,7 +75,10 @@ NAME_POOL = ["a.txt", "b", "pipe|name.bin", 'quo"te.txt', "it's", " lead", "trai
              ".hidden", "UP.TXT", "back\\slash", "q\"\"q", "|", "#hash", "name with  spaces.md",
              # names that are NOT in Unicode normal form C (decomposed accents, compatibility characters): a byte-exact file system
              # keeps them as they are, and so must the recorded path
-             "cafe\u0301.txt", "A\u030angstro\u0308m", "\u212b.dat", "o\u0302\u0323.bin"]
+             "cafe\u0301.txt", "A\u030angstro\u0308m", "\u212b.dat", "o\u0302\u0323.bin",
+             # control characters (legal in POSIX names; not "printable", but C16/C17/C18 quantify over all trees): the csv reader takes a
+             # bare carriage return for an end of row
+             "cr\rname.txt", "nl\nname", "tab\tname", "crlf\r\nx", "\r", "end\r"]
 
 
 def gen_tree(rng, nfiles=None, depth=2):
